@@ -53,6 +53,13 @@ def run(chk: core.Check, tier: str, seed: int) -> None:
     for _ in range(2000 if tier == "quick" else 60000):
         texts.append("".join(rng.choice(uni) for _ in range(rng.randint(0, 24))))
         texts.append("$" + "".join(rng.choice(uni) for _ in range(rng.randint(0, 24))))
+    from .c19 import inject  # noqa: PLC0415
+    for t in list(base[:600]):
+        texts.append(inject(t, rng) + "\n")
+        texts.append(t + "\n\n")
+        texts.append(inject(t.replace("[", "[\n"), rng))
+    for t in gen.neighbours("$.a\n.b\n[?@.c ==\n1]\n", rng, 60):
+        texts.append(t)
     texts = list(dict.fromkeys(texts))
     recs = []
     compiled = 0
@@ -71,6 +78,12 @@ def run(chk: core.Check, tier: str, seed: int) -> None:
                     except core.Unrepresentable:
                         pass
                 recs.append(impl.rec_total(jp, q, doc))
+    # the nondeterministic mode is total as well
+    from .. import probes  # noqa: PLC0415
+    nd = probes.make_env(jp, [], [], nondeterministic=True)
+    for q in corpus.SEEDS + ["$..[?@]", "$[?@.a]", "$..[?@.a == 1]", "$.*[?@]", "$[?count(@[?@]) > 0]", "$..*", "$[*]", "$..[*, ?@]"]:
+        for doc in ROOTS:
+            recs.append(impl.rec_total(jp, q, doc, env=nd))
     # evaluation on comparisons whose BOTH sides come from the data, over every pair of kinds
     from .c06 import COMPARANDS, NOTHING  # noqa: PLC0415
     vals = [c for c in COMPARANDS if c is not NOTHING]
